@@ -262,7 +262,7 @@ package middleware
 //@ watch VC = call validateContentType
 //@ watch EN = call github.com/go-openapi/errors.New
 //@ requires v != nil && v.route != nil && v.context != nil && v.context.debugLogf != nil && v.request != nil && v.request.URL != nil
-//@ stable v.result[*], v.route.Consumers[*], now:v.request.URL
+//@ stable v.result[*], v.route.Consumers[*], now:v.request.URL, v.context.api
 //@ ensures [C06:probe] old(len(v.result)) == 0 ==> calls(HB) == 1 && arg(HB,0,0) == old(v.request)
 //@ ensures [C06:nobody] old(len(v.result)) != 0 || !ret(HB,0,0) ==> v.result == old(v.result) && v.route.Consumer == old(v.route.Consumer) && v.request == old(v.request) && calls(CT) == 0 && calls(VC) == 0
 //@ ensures [C06:body] old(len(v.result)) == 0 && ret(HB,0,0) ==> calls(CT) == 1 && arg(CT,0,0) == v.context && arg(CT,0,1) == old(v.request)
@@ -270,7 +270,13 @@ package middleware
 //@ ensures [C06:gate] calls(CT) == 1 && ret(CT,0,3) == nil ==> v.request == ret(CT,0,2) && calls(VC) == 1 && arg(VC,0,0) == old(v.route.Consumes) && arg(VC,0,1) == ret(CT,0,0)
 //@ ensures [C06:refused] calls(VC) == 1 && ret(VC,0,0) != nil ==> len(v.result) >= 1 && v.result[0] == ret(VC,0,0)
 //@ ensures [C06:consumer] calls(CT) == 1 && ret(CT,0,0) != "" && old(v.route.Consumer) == nil && in(ret(CT,0,0), old(v.route.Consumers)) ==> v.route.Consumer == old(v.route.Consumers)[ret(CT,0,0)] && calls(EN) == 0
-//@ ensures [C06:noconsumer] calls(CT) == 1 && ret(CT,0,0) != "" && old(v.route.Consumer) == nil && !in(ret(CT,0,0), old(v.route.Consumers)) ==> v.route.Consumer == nil && calls(EN) == 1 && arg(EN,0,0) == 500 && len(v.result) >= 1
+//@ watch CF = invoke (middleware.RoutableAPI).ConsumersFor
+//@ mayabsent CF
+//@ spec missCT() := calls(CT) == 1 && ret(CT,0,0) != "" && old(v.route.Consumer) == nil && !in(ret(CT,0,0), old(v.route.Consumers))
+// a media type admitted through a wildcard entry is not in the route's table (literal entries only): the consumer the API
+// registered for it is used; only when there is none the request fails with 500
+//@ ensures [C06:apiconsumer] missCT() && old(v.context.api) != nil ==> calls(CF) == 1 && recv(CF,0) == old(v.context.api) && len(arg(CF,0,0)) == 1 && before(CF, arg(CF,0,0)[0]) == ret(CT,0,0) && (in(ret(CT,0,0), ret(CF,0,0)) ==> v.route.Consumer == mapat(ret(CF,0,0), ret(CT,0,0)) && calls(EN) == 0)
+//@ ensures [C06:noconsumer] missCT() && (old(v.context.api) == nil || (calls(CF) == 1 && !in(ret(CT,0,0), ret(CF,0,0)))) ==> v.route.Consumer == nil && calls(EN) == 1 && arg(EN,0,0) == 500 && len(v.result) >= 1
 //@ ensures [C06:keep] old(v.route.Consumer) != nil ==> v.route.Consumer == old(v.route.Consumer)
 //@ ensures [C06:samereq] v.request != nil && v.request.URL != nil && v.route == old(v.route) && v.context == old(v.context)
 //@ ensures [C06:admitted] calls(CT) == 1 && ret(CT,0,3) == nil && ret(VC,0,0) == nil && calls(EN) == 0 ==> len(v.result) == 0
@@ -303,7 +309,11 @@ package middleware
 //@ ensures [C06:gate] calls(RC) == 1 && ret(RC,0,2) == nil ==> calls(VC) == 1 && arg(VC,0,0) == old(route.Consumes) && arg(VC,0,1) == ret(RC,0,0)
 //@ ensures [C06:refused] calls(VC) == 1 && ret(VC,0,0) != nil ==> calls(BR) == 0 && result != nil && route.Consumer == old(route.Consumer)
 //@ ensures [C06:consumer] calls(VC) == 1 && ret(VC,0,0) == nil && in(ret(RC,0,0), old(route.Consumers)) ==> route.Consumer == old(route.Consumers)[ret(RC,0,0)]
-//@ ensures [C06:noconsumer] calls(VC) == 1 && ret(VC,0,0) == nil && !in(ret(RC,0,0), old(route.Consumers)) ==> calls(BR) == 0 && result != nil && route.Consumer == old(route.Consumer)
+//@ watch CF = invoke (middleware.RoutableAPI).ConsumersFor
+//@ mayabsent CF
+//@ spec missRC() := calls(VC) == 1 && ret(VC,0,0) == nil && !in(ret(RC,0,0), old(route.Consumers))
+//@ ensures [C06:apiconsumer] missRC() && old(c.api) != nil ==> calls(CF) == 1 && recv(CF,0) == old(c.api) && len(arg(CF,0,0)) == 1 && before(CF, arg(CF,0,0)[0]) == ret(RC,0,0) && (after(CF, in(ret(RC,0,0), ret(CF,0,0))) ==> route.Consumer == after(CF, mapat(ret(CF,0,0), ret(RC,0,0))))
+//@ ensures [C06:noconsumer] missRC() && (old(c.api) == nil || (calls(CF) == 1 && !after(CF, in(ret(RC,0,0), ret(CF,0,0))))) ==> calls(BR) == 0 && result != nil && route.Consumer == old(route.Consumer)
 //@ ensures [C07:notacceptable] calls(NG) == 1 && ret(NG,0,0) == "" ==> calls(BR) == 0 && result != nil
 //@ ensures [C06:binder] calls(BR) <= 1 && (calls(BR) == 1 ==> recv(BR,0) == binder && arg(BR,0,0) == request && arg(BR,0,1) == route)
 //@ ensures [C06:bindererr] calls(BR) == 1 && ret(BR,0,0) != nil ==> result == ret(BR,0,0)
